@@ -106,6 +106,28 @@ fn generate(cli: &Cli) -> Vec<Case> {
             seeds: (rng.u64(), rng.u64()),
         });
     }
+    // expiry 0: "within the expiry" is the second the cookie was issued in. The history starts early
+    // in a wall-clock second and its second connection follows within milliseconds
+    for i in 0..2u64 {
+        let mut rng = Rng::stream(cli.seed, 91_000 + i);
+        out.push(Case {
+            class: String::new(),
+            first_intent: Intent::Login,
+            secret: Some(rng.bytes(24)),
+            expiry: Some(0),
+            client_addr: mk::random_addr(&mut rng).parse().expect("addr"),
+            claimed: mk::ident(&mut rng, "claimed"),
+            authed: mk::ident(&mut rng, "vouched"),
+            props: vec![],
+            targets: mk::targets(&mut rng, 1),
+            pick: 0,
+            presented_session: false,
+            host: "at-once.example.org".into(),
+            port: 25565,
+            second: Second::SameIpOtherPort,
+            seeds: (rng.u64(), rng.u64()),
+        });
+    }
     if cli.tier == Tier::Thorough {
         // a handful of histories whose second connection comes after the cookie expired (real wait)
         for i in 0..cli.scaled(6) {
@@ -212,6 +234,17 @@ fn run_case(c: &Case) -> Outcome {
     } else {
         None
     };
+    let same_second_only = c.expiry == Some(0);
+    if same_second_only {
+        loop {
+            let sub = std::time::SystemTime::now().duration_since(std::time::UNIX_EPOCH).map(|d| d.subsec_millis()).unwrap_or(0);
+            if (30..=150).contains(&sub) {
+                break;
+            }
+            std::thread::sleep(Duration::from_millis(if sub < 30 { 30 - sub as u64 } else { 1030 - sub as u64 }));
+        }
+    }
+    let history_started = std::time::Instant::now();
     let t_before = now_unix();
     let sc1 = scenario(c, c.first_intent, c.client_addr, None, presented_session_cookie.clone(), c.seeds.0);
     let run1 = run(&sc1);
@@ -319,7 +352,8 @@ fn run_case(c: &Case) -> Outcome {
         match f2.enc_flag {
             None => bad(format!("second-connection-no-encryption-request/{:?}", c.second), format!("second connection ended before the Encryption Request ({})", run2.result.kind()), json!({})),
             Some(flag) => {
-                if expect_accept && flag {
+                // (with expiry 0 only if the whole history fitted into the second it began in)
+                if expect_accept && flag && (!same_second_only || history_started.elapsed() < Duration::from_millis(600)) {
                     bad("issued-cookie-not-accepted".into(), "the cookie issued a moment ago was not accepted from the same IP (client told to authenticate)".into(), json!({}));
                 }
                 if !expect_accept && !flag {
